@@ -177,10 +177,57 @@ class GeoRestrict(Harness):
                     cl.append((f"{nm}[{r}] equals the value read without restriction", cell_ident(a.cells[r], b.cells[r], kind_of(a) if a.dtype != "object" else "O")))
         return cl
 
+class RestrictFile(Harness):
+    """DataFrame.read_csv / read_parquet hand the restriction to pyarrow (include_columns / columns): decided here is
+    dataiter's part - that the list and the dtype map reach pyarrow and from_arrow for every order - over the contract
+    model of pyarrow in vf/fsstub.py (requested columns, in the requested order); the real pyarrow is observed on witnesses"""
+    prop = "C14"; opname = "file_restrict"
+    def __init__(self, fmt, maxn):
+        self.fmt = fmt; self.maxn = maxn
+        self.name = f"C14.restrict.DataFrame.read_{fmt}.n{maxn}"
+        self.bounds = {"rows": f"1..{maxn}", "columns": "a (int64), f (float64 with NaN), s (string)", "restriction": "ordered non-empty subsets of a, f, s",
+                       "dtype map": "none / float for a"}
+        self.symbolic = ["cell values"]; self.choice_dims = ["nrow", "requested columns and their order", "dtype map"]
+        self.goals = [f"data_frame.py:DataFrame.read_{fmt}", "data_frame.py:DataFrame.from_arrow"]
+    def build(self, ctx):
+        from .common import mk_col
+        n = choice("n", range(1, self.maxn + 1))
+        cols = {"a": mk_col("i", n, "a"), "f": mk_col("f", n, "f"), "s": mk_col("T", n, "s")}
+        want = list(choice("cols", [("a",), ("s", "a"), ("f", "s", "a"), ("a", "f"), ("s",)]))
+        types = [["a", "float"]] if "a" in want and choice("cast_a", [False, True]) else []
+        return {"obj": Frame(cols), "fmt": self.fmt, "cols": want, "types": types}
+    def conformance_ignore(self, real, pred):
+        return True      # dtypes chosen by the real serializer differ from the contract model; the spec relates two reads of the same world
+    def spec(self, inp, out):
+        if isinstance(out, Raised): return [(f"does not raise ({out.type}: {out.msg[:80]})", T(False))]
+        full, part = out["full"], out["part"]
+        types = dict(tuple(t) for t in inp["types"])
+        cl = [(f"restricted read has exactly the requested columns {sorted(inp['cols'])}", T(isinstance(part, Frame) and sorted(part.names) == sorted(inp["cols"]))),
+              ("full read has all columns", T(isinstance(full, Frame) and sorted(full.names) == ["a", "f", "s"]))]
+        if not (isinstance(part, Frame) and isinstance(full, Frame)): return cl
+        for nm in inp["cols"]:
+            if nm not in part.cols or nm not in full.cols: continue
+            a, b = part.cols[nm], full.cols[nm]
+            cl.append((f"{nm}: same length", T(len(a) == len(b))))
+            if len(a) != len(b): continue
+            if nm in types:
+                cl.append((f"{nm}: float64 as requested by dtypes", T(a.dtype == "float64")))
+                if a.dtype == "float64":
+                    for r in range(len(a)):
+                        cl.append((f"{nm}[{r}] equals the value read without restriction, cast to float", ident(a.cells[r], as_float(b.cells[r], b.dtype))))
+                continue
+            cl.append((f"{nm}: same dtype as in the full read", T(a.dtype == b.dtype)))
+            if a.dtype == b.dtype:
+                for r in range(len(a)):
+                    cl.append((f"{nm}[{r}] equals the value read without restriction", cell_ident(a.cells[r], b.cells[r], kind_of(a) if a.dtype != "object" else "O")))
+        return cl
+
 def harnesses(tier):
     hs = [Alias(a) for a in ALIASES]
     hs.append(GeoRestrict(2 if tier == "quick" else 3))
     n = 2 if tier == "quick" else 3
+    for f in ("csv", "parquet"):
+        hs.append(RestrictFile(f, 1 if tier == "quick" else 2))
     for r in ("DataFrame.from_json", "ListOfDicts.from_json", "ListOfDicts.read_csv"):
         hs.append(Restrict(r, n))
         hs.append(Restrict(r, n, typed=True))
